@@ -10,6 +10,7 @@ import (
 	"github.com/zclconf/go-cty/cty/function"
 	"github.com/zclconf/go-cty/cty/function/stdlib"
 
+	"verif/engine/h/gen"
 	"verif/engine/vf"
 )
 
@@ -376,6 +377,67 @@ func H_TypeExpr() {
 	if !jdiags.HasErrors() {
 		back, tdiags := typeexpr.TypeConstraint(je)
 		vf.Assert(!tdiags.HasErrors() && back.Equals(t), "type-string-roundtrip-json")
+	}
+	vf.Reach("done")
+}
+
+// H_StaticGen: for every grammar-generated expression, whatever static view exists
+// (traversal, keyword, call, list, map) must agree with evaluation.
+func H_StaticGen() {
+	e := gen.Expr(vf.Param("depth", 1), 0)
+	vf.Observe("src", e)
+	leaf := vf.Str(1)
+	vf.Assume(leaf[0] >= 'a' && leaf[0] <= 'z')
+	inner := cty.ObjectVal(map[string]cty.Value{"x": cty.ListVal([]cty.Value{cty.StringVal(leaf), cty.StringVal("x1")}), "for": cty.StringVal("kw"), "y1": cty.True, "z": cty.StringVal(leaf)})
+	ctx := &hcl.EvalContext{
+		Variables: map[string]cty.Value{
+			"b": cty.ObjectVal(map[string]cty.Value{"x": inner.GetAttr("x"), "for": cty.StringVal("kw"), "y1": cty.True, "k": cty.TupleVal([]cty.Value{cty.StringVal("k0"), inner}), "0": inner}),
+			"c": cty.ObjectVal(map[string]cty.Value{"d": cty.StringVal(leaf)}),
+			"l": cty.ListVal([]cty.Value{cty.StringVal(leaf), cty.StringVal("l1")}),
+			"m": cty.MapVal(map[string]cty.Value{"a": cty.StringVal(leaf)}),
+		},
+		Functions: map[string]function.Function{"f": stdlib.CoalesceListFunc, "upper": stdlib.UpperFunc},
+	}
+	expr, diags := hclsyntax.ParseExpression([]byte(e), "g.hcl", hcl.InitialPos)
+	if diags.HasErrors() {
+		vf.Reach("parse-error")
+		return
+	}
+	whole, wd := expr.Value(ctx)
+	if trav, td := hcl.AbsTraversalForExpr(expr); !td.HasErrors() {
+		root := trav.RootName()
+		if root != "true" && root != "false" && root != "null" {
+			v, d := trav.TraverseAbs(ctx)
+			vf.Assert(d.HasErrors() == wd.HasErrors(), "static-traversal-same-diagnostics-outcome")
+			if !d.HasErrors() && !wd.HasErrors() {
+				vf.Assert(v.RawEquals(whole), "static-traversal-same-value")
+			}
+		}
+		vf.Reach("traversal")
+	}
+	if wd.HasErrors() {
+		vf.Reach("eval-error")
+		return
+	}
+	if parts, d := hcl.ExprList(expr); !d.HasErrors() {
+		vf.Assert(whole.Type().IsTupleType() && whole.LengthInt() == len(parts), "list-view-length")
+		for i, p := range parts {
+			v, pd := p.Value(ctx)
+			vf.Assert(!pd.HasErrors() && v.RawEquals(whole.Index(cty.NumberIntVal(int64(i)))), "list-view-elements-are-the-wholes-elements")
+		}
+		vf.Reach("list")
+	}
+	if pairs, d := hcl.ExprMap(expr); !d.HasErrors() {
+		for _, kv := range pairs {
+			k, kd := kv.Key.Value(ctx)
+			v, vd := kv.Value.Value(ctx)
+			if kd.HasErrors() || vd.HasErrors() {
+				continue
+			}
+			ok := k.Type() == cty.String && whole.Type().IsObjectType() && whole.Type().HasAttribute(k.AsString()) && v.RawEquals(whole.GetAttr(k.AsString()))
+			vf.Assert(ok, "map-view-pairs-are-the-wholes-attributes")
+		}
+		vf.Reach("map")
 	}
 	vf.Reach("done")
 }
